@@ -5,6 +5,8 @@ From TS Require Import Model.Str Model.Outcome Model.Unicode Model.Types Model.P
 From TS Require Import Spec.C10Spec.
 From TS Require Proofs.C10Lex Proofs.C10_TS Proofs.C10_TSFile Proofs.C10_KT Proofs.C10_SC Proofs.C10_GO Proofs.C10_GOFile
                 Proofs.C10_SW Proofs.C10_SWFile Proofs.C10_PY Proofs.C10_PYFile Proofs.C10_KW Proofs.C10.
+From TS Require Import Spec.C10PyKeys.
+From TS Require Proofs.C10_PYKeys.
 From TS Require Import Spec.C10TsGrammar.
 From TS Require Proofs.C10_TSGrammarTok Proofs.C10_TSGrammarParse Proofs.C10_TSGrammar Proofs.C10_TSGrammarFile.
 From TS Require Import Spec.C10KtGrammar.
@@ -700,3 +702,13 @@ Goal exists fd fdr,
     good_C10_lex CSW Proofs.C10_SWUnitDigit.u_text_before = true /\ c10_sw_recognise Proofs.C10_SWUnitDigit.u_text_before = None.
 Proof. exact Props.C10.C10_swift_unit_digit_fixed. Qed.
 Print Assumptions Props.C10.C10_swift_unit_digit_fixed.
+Goal exists cfg pd text, dom_C10 CPY pd = true /\ known_C10 CPY [] pd = [] /\ known_C10_py_keys pd = ["C10-python-key-keyword"%string] /\
+    py_generate uc_exec cfg pd = Ok text /\
+    contains_sub (lit "    class: Literal[ETypes.A] = ETypes.A") text = true /\ contains_sub (lit "    in: int") text = true /\
+    mem_str (lit "class") c10_python_keywords = true /\ mem_str (lit "in") c10_python_keywords = true.
+Proof. exact Props.C10.C10_python_key_keyword_refuted. Qed.
+Print Assumptions Props.C10.C10_python_key_keyword_refuted.
+Goal known_C10_py_keys Proofs.C10_PYKeys.pk_plain = [] /\ known_C10_py_keys Proofs.C10_PYKeys.pk_unit_only = [] /\
+  (exists text, py_generate uc_exec Proofs.C10.w_py_cfg Proofs.C10_PYKeys.pk_unit_only = Ok text /\ contains_sub (lit "    in:") text = false).
+Proof. exact Props.C10.C10_python_key_keyword_class_boundaries. Qed.
+Print Assumptions Props.C10.C10_python_key_keyword_class_boundaries.
